@@ -208,11 +208,15 @@ func replayFile(t *testing.T, out *workerOut) {
 		fmt.Println("HARNESS-ERROR", res.HarnessErr)
 		return
 	}
-	for _, v := range res.Viols {
-		if v.Prop == plan.Prop && (rf.Violation == nil || v.Class == rf.Violation.Class) {
-			out.Violation = v
-			fmt.Printf("REPRODUCED property=%s class=%s detail=%s\n", v.Prop, v.Class, v.Detail)
-			return
+	for pass := 0; pass < 2; pass++ {
+		for _, v := range res.Viols {
+			// same class; failing that, the same oracle clause (the class suffix can depend on the order in
+			// which DefraDB walks a Go map, e.g. which of several fields of one write is reported first)
+			if v.Prop == plan.Prop && (rf.Violation == nil || v.Class == rf.Violation.Class || (pass == 1 && v.Clause == rf.Violation.Clause)) {
+				out.Violation = v
+				fmt.Printf("REPRODUCED property=%s class=%s detail=%s\n", v.Prop, v.Class, v.Detail)
+				return
+			}
 		}
 	}
 	fmt.Println("NOT-REPRODUCED")
